@@ -131,7 +131,24 @@ class MergeSem(Sem):
         self.buf, self.frame = buf, frame
         self.order_faults = []
 
+    # the abstract state is a SET of single-path states (no merging: whether the buffer was empty is decided per path)
     def join2(self, a, b):
+        return a | b
+
+    def transfer(self, st, state):
+        return frozenset(self._t1(st, s_) for s_ in state)
+
+    def refine(self, test, state):
+        T, F = set(), set()
+        for s_ in state:
+            t_, f_ = self._r1(test, s_)
+            if t_ is not None:
+                T.add(t_)
+            if f_ is not None:
+                F.add(f_)
+        return (frozenset(T) or None), (frozenset(F) or None)
+
+    def _join_unused(self, a, b):
         ba, fa, ea, (ia, sa_) = a
         bb, fb, eb, (ib, sb_) = b
         da, db = dict(ea), dict(eb)
@@ -177,28 +194,28 @@ class MergeSem(Sem):
             if first_buf is not None and last_old is not None and first_buf < last_old:
                 self.order_faults.append(n)
 
-    def refine(self, test, state):
+    def _r1(self, test, state):
+        from ..common import emptiness
         b, fr, env, ix = state
-        if isinstance(test, ast.Call) and dotted(test.func) == "self.has_index":
-            return (b, fr, env, (True, ix[1])), state
         t, pol = test, True
         while isinstance(t, ast.UnaryOp) and isinstance(t.op, ast.Not):
             t, pol = t.operand, not pol
-        empty_when = None          # polarity of `test` under which the buffer is empty
-        if dotted(t) == f"self.{self.buf}":
-            empty_when = not pol
-        elif isinstance(t, ast.Compare) and len(t.ops) == 1 and isinstance(t.left, ast.Call) and callee_name(t.left) == "len" and t.left.args \
-                and dotted(t.left.args[0]) == f"self.{self.buf}" and isinstance(t.comparators[0], ast.Constant) and t.comparators[0].value == 0:
-            if isinstance(t.ops[0], ast.Eq):
-                empty_when = pol
-            elif isinstance(t.ops[0], (ast.Gt, ast.NotEq)):
-                empty_when = not pol
+        if isinstance(t, ast.Call) and dotted(t.func) == "self.has_index":
+            on = (b, fr, env, (True, ix[1]))
+            return (on, state) if pol else (state, on)
+        # the test says the buffer (or a local that is the buffer) is empty / non-empty
+        envd = dict(env)
+
+        def is_buf(x):
+            return x == f"self.{self.buf}" or envd.get(x) == frozenset({"buf"})
+        et, ef = emptiness(test, True), emptiness(test, False)
+        empty_when = True if (et and is_buf(et)) else (False if (ef and is_buf(ef)) else None)
         if empty_when is None or b != "full":
             return state, state
         e = ("empty", fr, env, ix)
         return (e, state) if empty_when else (state, e)
 
-    def transfer(self, st, state):
+    def _t1(self, st, state):
         b, fr, env, (indexed, unsorted) = state
         if isinstance(st, (ast.Assign, ast.AugAssign, ast.AnnAssign)) and getattr(st, "value", None) is not None:
             self._order(st.value, state)
@@ -281,13 +298,10 @@ def _flush_integrity(ctx, repo, m, cname, buf, flush, frame, methods):
     # (b) the flush merges: on every normal exit either the buffer was empty at entry, or the frame holds old+buffered rows and the buffer is reset
     ctx.instance("C19-R6", fflush.fq, "merge")
     sem = MergeSem(buf, frame)
-    exits = sem.run(fflush.node, ("full", frozenset({"old"}), (), (None, False)))
+    exits = sem.run(fflush.node, frozenset([("full", frozenset({"old"}), (), (None, False))]))
     n_exit = 0
-    for e in exits:
-        if e.kind != "return":
-            continue
-        n_exit += 1
-        b, fr, _env, (indexed, unsorted) = e.state
+    def _judge(e, st1):
+        b, fr, _env, (indexed, unsorted) = st1
         if b != "empty":
             ctx.ob("C19-R6", fflush.fq, "indexed flush: the frame is re-sorted by key after the last re-assignment", not unsorted, node=e.node,
                    construct="indexed flush leaves the frame unsorted",
@@ -301,13 +315,18 @@ def _flush_integrity(ctx, repo, m, cname, buf, flush, frame, methods):
                construct=f"flush exit without merge ({why})" if not ok else "flush exit",
                msg=f"{cname}.{flush} can return with {why}: rows are lost, duplicated on the next flush, or never become visible",
                path=f"entry {fflush.fq} -> exit line {e.line}")
+    for e0 in exits:
+        if e0.kind != "return":
+            continue
+        for st1 in sorted(e0.state, key=str):        # one judgement per path state reaching this exit
+            n_exit += 1
+            _judge(e0, st1)
     n_exc = 0
     for e in exits:
         if e.kind != "exc":
             continue
         n_exc += 1
-        b, fr, _env, _ix = e.state
-        ok = b in ("full", "empty") or "buf" in fr
+        ok = all(b in ("full", "empty") or "buf" in fr for b, fr, _env, _ix in e.state)
         ctx.ob("C19-R6", fflush.fq, "failed flush: the buffered rows are still in the buffer or already in the frame", ok, node=e.node,
                construct="flush can fail after detaching the buffered rows",
                msg=f"{cname}.{flush} resets self.{buf} before the frame holds its rows: if the merge raises, the rows inserted since the last read silently vanish",
